@@ -6,6 +6,7 @@
   command lines; where the pinned code is NOT sane the negation is proved on a witness and the `_partial`
   theorem says what does hold.  That the code conforms to the reference is the correspondence run.
 -/
+import AioftpModel.Lemmas.Dispatch
 import AioftpModel.Lemmas.Session
 
 namespace C05
@@ -425,5 +426,61 @@ example :
     s3.cwd = ⟨1, ["a".toList, "b".toList]⟩ ∧ o6.replies = [150, 226] ∧
     w6.fs.lookup ["a".toList, "b".toList, "f".toList] = some (.file [7, 8, 9]) := by
   decide
+
+/-! ### pipelined command lines are handled in order, one at a time
+
+`Session.step` is the meaning of ONE command on the state the previous command left.  That this is also the
+meaning of several lines that arrive in one segment rests on how the dispatcher starts handlers
+(`Model.Dispatch`, regenerated fact `dispatcherOneCommandAtATime`); on the pinned tree it was not so (F18, F14). -/
+
+section dispatch
+open Model.Dispatch
+
+/-- obligation over the regenerated source -/
+theorem fact_one_command_at_a_time : Generated.dispatcherOneCommandAtATime = true := by decide
+
+/-- **pipelined_commands_handled_in_order** (every schedule of arriving lines and returning handlers): at most one
+    handler runs at any moment; handlers are started in the order the lines were read (what was started, followed by
+    what still waits, IS what was read); and a line waits only while a handler is running. -/
+theorem pipelined_commands_handled_in_order (evs : List Ev) :
+    (runNow evs).running.length ≤ 1 ∧
+    (runNow evs).started ++ (runNow evs).backlog = (runNow evs).received ∧
+    ((runNow evs).backlog ≠ [] → (runNow evs).running ≠ []) := by
+  unfold runNow
+  rw [fact_one_command_at_a_time]
+  have h := run_inv init evs init_inv
+  exact ⟨h.one, h.order, h.busy⟩
+
+/-- nothing is lost or invented on the way: what was read is exactly the lines that arrived, in order -/
+theorem pipelined_commands_all_read (evs : List Ev) :
+    (runNow evs).received = recvs evs := by
+  unfold runNow
+  rw [run_received]
+  simp [init]
+
+/-- so once every handler has returned and nothing waits, every line that arrived has been handled, in order -/
+theorem pipelined_commands_all_handled (evs : List Ev)
+    (hq : (runNow evs).running = []) :
+    (runNow evs).started = recvs evs := by
+  obtain ⟨_, h2, h3⟩ := pipelined_commands_handled_in_order evs
+  have hb : (runNow evs).backlog = [] := by
+    cases hb : (runNow evs).backlog with
+    | nil => rfl
+    | cons a t => exact absurd hq (h3 (by simp [hb]))
+  rw [hb, List.append_nil] at h2
+  rw [h2, pipelined_commands_all_read]
+
+/-- **old_pipelined_handlers_ran_side_by_side** (F18 / F14, the defect that was repaired): on the pinned shape two
+    lines of one segment gave two handlers running at once - a later command could change the session under an
+    earlier one, or overtake it -/
+theorem old_pipelined_handlers_ran_side_by_side :
+    (run false init [.recv 1, .recv 2]).running = [1, 2] ∧
+    -- and the second could finish first
+    (run false init [.recv 1, .recv 2, .done 1]).running = [1] := by decide
+
+example : (runNow [.recv 1, .recv 2, .recv 3, .done 0, .done 0]).running = [3] ∧
+    (runNow [.recv 1, .recv 2, .recv 3, .done 0, .done 0]).started = [1, 2, 3] := by decide
+
+end dispatch
 
 end C05
